@@ -149,7 +149,19 @@ def _try_parse_defn(node: AstNode, globals: Globals) -> Definition | None:
         case ast.Name(id=x):
             if x not in globals:
                 return None
-            defn = globals[x]
+            try:
+                defn = globals[x]
+            except GuppyError as err:
+                # `def f(x: f)`: point at the annotation instead of nowhere
+                from guppylang_internals.engine import CyclicDefinitionError
+
+                if (
+                    isinstance(err.error, CyclicDefinitionError)
+                    and err.error.span is None
+                ):
+                    e = CyclicDefinitionError(node, err.error.kind, err.error.name)
+                    raise GuppyError(e) from None
+                raise
             if isinstance(defn, PythonObject):
                 return None
             return defn
